@@ -107,6 +107,8 @@ type mirror struct {
 	mu      sync.Mutex
 	items   map[[2]string]metav1.Object
 	events  [][2]int // (type, id) in arrival order
+	seqs    []int64  // fakeapi.Seq at each arrival
+	vers    []int    // resource version of each event's object
 	bad     []string // ill-formed events seen
 	preRdy  int      // events received before Ready was observed closed
 	closed  bool
@@ -130,6 +132,10 @@ func newMirror(sub kcache.Subscription, seed []metav1.Object) *mirror {
 			k := [2]string{o.GetNamespace(), o.GetName()}
 			_, present := m.items[k]
 			m.events = append(m.events, [2]int{etyOf(ev.Type()), ID(o)})
+			m.seqs = append(m.seqs, fakeapi.Seq.Add(1))
+			var ver int
+			fmt.Sscan(o.GetResourceVersion(), &ver)
+			m.vers = append(m.vers, ver)
 			switch ev.Type() {
 			case kcache.EventTypeCreate:
 				if present {
@@ -172,6 +178,20 @@ func (m *mirror) ids() []int {
 	}
 	sort.Ints(ids)
 	return ids
+}
+
+// receivedBefore returns the highest version among events that had arrived
+// before the observation numbered seq.
+func (m *mirror) receivedBefore(seq int64) int {
+	m.mu.Lock()
+	defer m.mu.Unlock()
+	best := 0
+	for i, s := range m.seqs {
+		if s < seq && m.vers[i] > best {
+			best = m.vers[i]
+		}
+	}
+	return best
 }
 
 func (m *mirror) snapshot() (events [][2]int, bad []string, preReady int) {
